@@ -73,10 +73,15 @@ async def check_message(client, seq, b, errors, where):
             break
 
 
-async def scenario(b):
+async def scenario(b, backend='dict'):
     errors = []
-    w = await World().start()
-    c = await w.client('c')
+    if backend == 'dict':
+        w = await World().start()
+        c = await w.client('c')
+    else:
+        from .imapdrv import MaildirWorld
+        w = await MaildirWorld(layout=backend).start(users=(('alice', 'apass'),))
+        c = await w.client('c', user=b'alice', pw=b'apass')
     await c.cmd(b'CREATE Box')
     await c.cmd(b'CREATE Copy')
     r = await c.cmd(b'APPEND Box {%d}' % len(b), [b + b'\r\n'])
@@ -109,14 +114,19 @@ async def scenario(b):
                 errors.append(('bodystructure_octets_equal_part_length',
                                f'BODYSTRUCTURE announces {int(m.group(1))} octets, BODY[1] returns {len(part)}'))
     await w.close()
+    if hasattr(w, 'cleanup'):
+        w.cleanup()
     if c.exception() is not None:
         errors.append(f'connection died: {c.exception()!r}')
     return errors, ('ok', len(b))
 
 
 def _worker(b):
+    backend = 'dict'
+    if isinstance(b, tuple):
+        backend, b = b
     try:
-        errs, sig = run(scenario(b))
+        errs, sig = run(scenario(b, backend))
     except Exception as exc:    # noqa
         import traceback
         return b, [f'harness exception {exc!r} {traceback.format_exc()[-300:]}'], ()
@@ -142,7 +152,7 @@ def inputs(tier, seed):
         yield hdr + sep + body
 
 
-def bounded_bytes(label):
+def bounded_bytes(label, backend='dict'):
     from pyvc.prop import BoundedResult
 
     def fn(tier, seed):
@@ -150,8 +160,15 @@ def bounded_bytes(label):
         res.exhaustive = False
         res.note = 'exhaustive for all strings up to the stated length over the alphabet; longer ones seeded'
         items = list(dict.fromkeys(inputs(tier, seed)))
+        if backend != 'dict':
+            # the maildir backend (thread pool, real files): the special shapes, all words up to length 2 (thorough 3), 60 seeded
+            short = [x for x in items if len(x) <= (2 if tier == 'quick' else 3)]
+            longer = [x for x in items if len(x) > 4]
+            items = [(backend, x) for x in list(dict.fromkeys(SPECIALS + short + longer[:60 if tier == 'quick' else 600]))]
         with mp.get_context('fork').Pool(16) as pool:
             for b, errs, sig in pool.imap_unordered(_worker, items, chunksize=16):
+                if isinstance(b, tuple):
+                    b = b[1]
                 res.evaluations += 1
                 res.distinct.add((sig, b[:12]))
                 if errs:
